@@ -272,6 +272,16 @@ class Discharger:
             if 0 <= b[0] and b[1] < bits:
                 return True, "shift amount in %s" % (b,)
             return False, "shift amount %s may exceed %d bits" % (b, bits)
+        if op == "Sub":
+            ka, kb = lib.operand_key(body, rv["a"]), lib.operand_key(body, rv["b"])
+            for cnd, truth in lib.dominating_conditions(body, s.bb):
+                if cnd.kind != "cmp":
+                    continue
+                ca, cb = lib.operand_key(body, cnd.a), lib.operand_key(body, cnd.b)
+                o2 = cnd.op if truth else {"Lt": "Ge", "Le": "Gt", "Gt": "Le", "Ge": "Lt", "Eq": "Ne", "Ne": "Eq"}[cnd.op]
+                if (ca, cb) == (ka, kb) and o2 in ("Ge", "Gt", "Eq") or (ca, cb) == (kb, ka) and o2 in ("Le", "Lt", "Eq"):
+                    if ka[0] == "place" and kb[0] == "place" and a[0] >= 0:
+                        return True, "dominated by minuend >= subtrahend"
         r = lib.arith(op, a, b)
         if r is None:
             return False, "no interval for %s" % op
